@@ -134,6 +134,10 @@ def perturbations(region, prng):
                 yield name + '.lat 1ulp', rebuild(**{name: SkyCoord(float(lon), float(np.nextafter(lat, 1000.0)), unit='deg', frame=v.frame.name)})
                 other = 'galactic' if v.frame.name != 'galactic' else 'icrs'
                 yield name + ' frame', rebuild(**{name: SkyCoord(float(lon), float(lat), unit='deg', frame=other)})
+                if v.frame.name in ('fk5', 'fk4'):
+                    # same frame class and numbers, another equinox: a different position on the sky
+                    yield name + ' equinox', rebuild(**{name: SkyCoord(float(lon), float(lat), unit='deg', frame=v.frame.name,
+                                                                       equinox='J1975' if v.frame.name == 'fk5' else 'B1975')})
         elif isinstance(v, u.Quantity):
             val = v.value
             nv = np.nextafter(val, np.inf) if val != 0 else 1e-300
